@@ -3,6 +3,17 @@ import json
 import vlib
 
 PID = "C13"
+MANIFEST = dict(
+        spec="Queue.tla (+MC_Queue, Gen_Queue, Trace_Queue)",
+        text="TLC checks exhaustively (capacity<=4 quick / <=5 thorough, every start offset and fill, every call with every "
+             "length) that the ring design (store/max/off/len) implements a plain byte deque and that refusals change nothing; "
+             "every transition of the model's control skeleton is then replayed into the real struct queue (result class, returned "
+             "bytes and full logical content compared after each call), and seeded histories recorded from the real code at "
+             "capacities 7..300 are validated by TLC against the same specification.",
+        note="Trusted: TLC, drv/queue.c (projection only), bounded model; memory safety of the calls is observed by guard bytes "
+             "and ASan on each executed call, not proved.",
+        technique="TLA+ spec + TLC exhaustive check; TLC-generated behaviours replayed into the C code; TLC trace validation of recorded runs",
+        design="5/C13")
 CFG = {
     "quick":    dict(mc="MC_Queue.cfg",   gen="Gen_Queue.cfg",   nhist=60,  steps=120),
     "thorough": dict(mc="MC_Queue_t.cfg", gen="Gen_Queue_t.cfg", nhist=400, steps=400),
